@@ -1,4 +1,5 @@
 import Robust.Irc.Proofs.HandlerSpec
+import Robust.Irc.Proofs.NInv
 /-!
 Services-link handlers (`SCmds.lean`): shared infrastructure.
 
@@ -22,6 +23,7 @@ def PreservesSrv (h : Ctx → Id → IrcMsg → Res Ctx) : Prop :=
 
 /-! ### panic-freedom -/
 
+namespace Srv
 def NoPanic {α : Type} (r : Res α) : Prop := ∀ site, r ≠ Res.panic site
 
 theorem NoPanic.ok {α : Type} (a : α) : NoPanic (Res.ok a) := fun _ h => by cases h
@@ -45,6 +47,8 @@ theorem param_ok {m : IrcMsg} {i : Nat} (h : i < m.params.length) : ∃ p, param
   unfold param
   rw [List.getElem?_eq_getElem h]
   exact ⟨_, rfl⟩
+end Srv
+open Srv
 
 theorem pfxName_ok {m : IrcMsg} (h : m.pfx.isSome = true) : ∃ n, pfxName m = Res.ok n := by
   unfold pfxName
@@ -86,6 +90,7 @@ theorem OutGrows.modS {c c' : Ctx} {sid : Id} {f : Session → Session} (h : mod
   obtain ⟨s, _, rfl⟩ := modS_eq_ok.1 h
   exact OutGrows.putS c _
 
+namespace Srv
 /-- only output was appended -/
 structure Emits (c c' : Ctx) : Prop where
   st : c'.st = c.st
@@ -97,6 +102,8 @@ theorem Emits.trans {a b c : Ctx} (h1 : Emits a b) (h2 : Emits b c) : Emits a c 
 theorem Emits.emit (c : Ctx) (m : IrcMsg) (r : List Nat) : Emits c (emit c m r) := ⟨rfl, OutGrows.emit c m r⟩
 theorem Emits.sendUser (c : Ctx) (sid : Id) (m : IrcMsg) : Emits c (sendUser c sid m) := ⟨rfl, OutGrows.sendUser c sid m⟩
 theorem Emits.sendSvc (c : Ctx) (m : IrcMsg) : Emits c (sendSvc c m) := ⟨rfl, OutGrows.sendSvc c m⟩
+end Srv
+open Srv
 
 /-! ### transfer lemmas for `Post` -/
 
@@ -203,6 +210,8 @@ structure Mid (c0 c : Ctx) (sid : Id) : Prop where
   linv : LInv c.st
   actor : SrvActor c.st sid
   og : OutGrows c0 c
+  /-- nickless sessions stay inert (`NInv.lean`), if they were when the handler started -/
+  ninv : NI c0.st → NI c.st
 
 theorem Mid.post {c0 c : Ctx} {sid : Id} (h : Mid c0 c sid) : Post c0 c sid where
   hinv := h.hinv
@@ -214,11 +223,12 @@ theorem Mid.post {c0 c : Ctx} {sid : Id} (h : Mid c0 c sid) : Post c0 c sid wher
 
 theorem Mid.of_pre {c : Ctx} {sid : Id} {s : Session} (h : Pre c sid)
     (hs : AMap.get c.st.sessions sid = some s) (hsrv : s.server = true) : Mid c c sid :=
-  ⟨h.inv.toHInv, h.linv, ⟨s, hs, hsrv⟩, OutGrows.refl c⟩
+  ⟨h.inv.toHInv, h.linv, ⟨s, hs, hsrv⟩, OutGrows.refl c, fun h0 => h0⟩
 
 /-- a step that leaves `st` alone -/
 theorem Mid.emits {c0 c c' : Ctx} {sid : Id} (h : Mid c0 c sid) (he : Emits c c') : Mid c0 c' sid :=
-  ⟨by rw [he.st]; exact h.hinv, by rw [he.st]; exact h.linv, by rw [he.st]; exact h.actor, h.og.trans he.og⟩
+  ⟨by rw [he.st]; exact h.hinv, by rw [he.st]; exact h.linv, by rw [he.st]; exact h.actor, h.og.trans he.og,
+    fun h0 => by rw [he.st]; exact h.ninv h0⟩
 
 theorem Mid.emit {c0 c : Ctx} {sid : Id} (h : Mid c0 c sid) (m : IrcMsg) (r : List Nat) : Mid c0 (emit c m r) sid :=
   h.emits (Emits.emit c m r)
@@ -236,7 +246,8 @@ theorem Mid.modS_inert {c0 c c' : Ctx} {sid tid : Id} {f : Session → Session} 
     (hf : InertFn f) (hr : modS c tid f = Res.ok c') : Mid c0 c' sid := by
   refine ⟨HInv_modS_inert f (fun s => ⟨(hf s).1, (hf s).2.1, (hf s).2.2.1, (hf s).2.2.2.1⟩) h.hinv hr,
     h.linv.modS hr (fun s hs hl => ?_),
-    h.actor.modS h.hinv.toWInvCore (fun s => ⟨(hf s).1, (hf s).2.2.2.2.1⟩) hr, h.og.trans (OutGrows.modS hr)⟩
+    h.actor.modS h.hinv.toWInvCore (fun s => ⟨(hf s).1, (hf s).2.2.2.2.1⟩) hr, h.og.trans (OutGrows.modS hr),
+    fun h0 => (h.ninv h0).modS_keep hr (fun s => ⟨(hf s).2.2.1, (hf s).2.2.2.1⟩)⟩
   rw [(hf s).2.2.1]
   exact h.linv _ s hs (by rw [← (hf s).2.2.2.2.2]; exact hl)
 
@@ -253,29 +264,38 @@ theorem Mid.putChan_inert {c0 c : Ctx} {sid : Id} {lc : String} {ch ch' : Channe
     (hg : AMap.get c.st.channels lc = some ch) (hname : ch'.name = ch.name)
     (hkeys : AMap.keys ch'.nicks = AMap.keys ch.nicks) : Mid c0 (putChan c lc ch') sid :=
   ⟨HInv_putChan_inert h.hinv hg hname hkeys, h.linv.putChan lc ch', h.actor.congr rfl,
-    h.og.trans (OutGrows.putChan c lc ch')⟩
+    h.og.trans (OutGrows.putChan c lc ch'), fun h0 => (h.ninv h0).putChan_same lc hg hname⟩
 
 theorem Mid.leaveChannel {c0 c c' : Ctx} {sid tid : Id} {lc lcn : String} (h : Mid c0 c sid)
     (hidx : AMap.get c.st.nicks lcn = some tid) (hr : leaveChannel c lc lcn tid = Res.ok c') : Mid c0 c' sid := by
   have sp := leaveChannel_spec h.hinv.toWInv hidx hr
   exact ⟨leaveChannel_HInv h.hinv hidx hr, h.linv.leaveChannel h.hinv.toWInv hidx hr,
-    h.actor.leaveChannel sp, h.og.trans (OutGrows.of_frame sp.frame)⟩
+    h.actor.leaveChannel sp, h.og.trans (OutGrows.of_frame sp.frame), fun h0 => (h.ninv h0).leaveChannel hr⟩
 
 theorem Mid.deleteSession {c0 c c' : Ctx} {sid tid : Id} {t : Session} (h : Mid c0 c sid)
     (ht : AMap.get c.st.sessions tid = some t) (hpre : DelPre c.st t)
     (hr : deleteSession c tid = Res.ok c') : Mid c0 c' sid := by
   have sp := deleteSession_spec h.hinv.toWInv ht hpre hr
   exact ⟨deleteSession_HInv h.hinv ht hpre hr, h.linv.deleteSession h.hinv.toWInv ht hpre hr,
-    h.actor.deleteSession ht sp, h.og.trans (OutGrows.of_frame sp.frame)⟩
+    h.actor.deleteSession ht sp, h.og.trans (OutGrows.of_frame sp.frame), fun h0 => (h.ninv h0).deleteSession hr⟩
+
+/-- the channel value `serverJoinOne` / `cmdServerSvsjoin` add the member to carries a valid name when it is new -/
+theorem getD_chan_valid {c : Ctx} {lc chn : String} (hv : ¬ (!isValidChannel chn) = true) :
+    AMap.get c.st.channels lc = none →
+      isValidChannel ((AMap.get c.st.channels lc).getD { name := chn }).name = true := by
+  intro hnone
+  rw [hnone]
+  simpa using hv
 
 /-- the join step of `serverJoinOne` / `cmdServerSvsjoin` -/
 theorem Mid.addMember {c0 c c' : Ctx} {sid tid : Id} {lc lcn : String} {ch : Channel} {mem : Member}
     (h : Mid c0 c sid) (hidx : AMap.get c.st.nicks lcn = some tid)
     (hch : AMap.get c.st.channels lc = some ch ∨
            (AMap.get c.st.channels lc = none ∧ ch.nicks = [] ∧ chanToLower ch.name = lc))
+    (hvn : AMap.get c.st.channels lc = none → isValidChannel ch.name = true)
     (hr : modS (putChan c lc { ch with nicks := AMap.set ch.nicks lcn mem }) tid
             (fun t => { t with channels := setInsert t.channels lc }) = Res.ok c') : Mid c0 c' sid := by
-  refine ⟨addMember_HInv h.hinv.toWInv (h.hinv.nonempty.but lc) hidx hch hr, ?_, ?_, ?_⟩
+  refine ⟨addMember_HInv h.hinv.toWInv (h.hinv.nonempty.but lc) hidx hch hr, ?_, ?_, ?_, ?_⟩
   · exact LInv.modS (h.linv.putChan lc _) hr (fun s hs hl => h.linv _ s hs hl)
   · obtain ⟨t, ht, rfl⟩ := modS_eq_ok.1 hr
     change AMap.get c.st.sessions tid = some t at ht
@@ -283,6 +303,14 @@ theorem Mid.addMember {c0 c c' : Ctx} {sid tid : Id} {lc lcn : String} {ch : Cha
     show AMap.set c.st.sessions t.id _ = _
     rw [(h.hinv.sessId tid t ht).1]
   · exact (h.og.trans (OutGrows.putChan c lc _)).trans (OutGrows.modS hr)
+  · intro h0
+    obtain ⟨t, ht, _, _⟩ := h.hinv.index lcn tid hidx
+    have hv : isValidChannel ch.name = true := by
+      rcases hch with hg | ⟨hg, _⟩
+      · exact (h.ninv h0).chan lc ch hg
+      · exact hvn hg
+    exact NI.modS_named (c := putChan c lc _) ((h.ninv h0).putChan lc (ch := { ch with nicks := AMap.set ch.nicks lcn mem }) hv) hr ht
+      ((h.ninv h0).indexed_nick h.hinv.toWInvCore hidx ht) (fun _ => rfl)
 
 /-! ### `foldlM` -/
 
@@ -298,6 +326,7 @@ theorem foldlM_inv {α : Type} (P : Ctx → Prop) (f : Ctx → α → Res Ctx) :
     exact foldlM_inv P f t (fun c a c' ha => hstep c a c' (List.mem_cons_of_mem _ ha)) c1 c'
       (hstep c a c1 (List.mem_cons_self ..) hp h1) hr
 
+namespace Srv
 theorem foldlM_noPanic {α : Type} (P : Ctx → Prop) (f : Ctx → α → Res Ctx) :
     ∀ (l : List α), (∀ c a c', a ∈ l → P c → f c a = Res.ok c' → P c') →
       (∀ c a, a ∈ l → P c → NoPanic (f c a)) → ∀ c, P c → NoPanic (l.foldlM f c)
@@ -308,6 +337,8 @@ theorem foldlM_noPanic {α : Type} (P : Ctx → Prop) (f : Ctx → α → Res Ct
     refine NoPanic.bind (hsafe c a (List.mem_cons_self ..) hp) (fun c1 h1 => ?_)
     exact foldlM_noPanic P f t (fun c a c' ha => hstep c a c' (List.mem_cons_of_mem _ ha))
       (fun c a ha => hsafe c a (List.mem_cons_of_mem _ ha)) c1 (hstep c a c1 (List.mem_cons_self ..) hp h1)
+end Srv
+open Srv
 
 theorem foldlM_emits {α : Type} (f : Ctx → α → Res Ctx) (l : List α)
     (hstep : ∀ c a c', a ∈ l → f c a = Res.ok c' → Emits c c') (c c' : Ctx) (hr : l.foldlM f c = Res.ok c') :
